@@ -524,3 +524,311 @@ Example models_differ_on_empty_length :
      match ms with [d] => D.file_info_from_response ext_id d | _ => Err 0%N end) = D.OErr 0
   /\ run MStat "/dir/a.txt" empty_length_script = COk (VPaths ["/dir/a.txt"]).
 Proof. vm_compute. auto. Qed.
+
+(** * The C10 model (Objects.v): the readers of calendar / address object lists
+
+    Objects.v decodes a multi-status element tree (ObjXml.dec_multistatus, with text nodes
+    and attributes, codecs as functions) into [ObjXml.response]s and reads them with
+    [decode_object] / [decode_object_list] (decodeCalendarObjectList, decodeAddressList).
+    Here: on every decoded response — written as a ClientTotal response by [o_emb], each
+    property value annotated with what C10's codec makes of its character data — Response.Err,
+    Path, DecodeProp and one iteration of the list decoder read alike, and so do the lists.
+    Not related here (the gap of [C14_agrees_with_objects_model_partial]): the two decoders
+    from the element tree to the responses (ObjXml.dec_multistatus filters the children per
+    field, ClientTotal.dec_multistatus folds over them). *)
+From GW Require ObjXml Objects.
+Module OX := ObjXml.
+Module O := Objects.
+
+Section AgreeObjects.
+Variable cd : OX.codecs.
+Variable fl : OX.flavor.
+
+Definition o_data_name : qname := O.data_name fl.
+Definition o_guarded : bool := match fl with OX.Cal => true | OX.Card => false end.
+
+Definition o_ann (t : OX.xtree) : leaf :=
+  match t with
+  | OX.Elem m _ ks =>
+    let s := OX.chardata ks in
+    if qeq m o_data_name then good_of (OX.pay_dec cd fl s)
+    else if qeq m n_getlastmodified then good_of (OX.time_dec cd s)
+    else if qeq m n_getetag then good_of (OX.etag_dec cd s)
+    else if qeq m n_getcontentlength then
+      match OX.chardata_int s with Some z => LInt (z <? 0)%Z | None => LBad end
+    else LNone
+  | _ => LNone
+  end.
+
+Definition o_emb1 (t : OX.xtree) : xtree :=
+  match t with OX.Elem m _ _ => Elem m (o_ann t) [] | _ => Elem ("", "") LNone [] end.
+Definition o_emb_raw (t : OX.xtree) : list xtree :=
+  match t with OX.Elem _ _ _ => [o_emb1 t] | _ => [] end.
+Definition o_code (st : OX.status) : N := Z.to_N (OX.st_code st).
+Definition o_emb_ps (ps : OX.propstat) : propstat :=
+  mkPS (flat_map o_emb_raw (OX.ps_props ps)) (o_code (OX.ps_status ps)).
+Definition o_names (raws : list OX.xtree) : list qname :=
+  flat_map (fun t => match t with OX.Elem m _ _ => [m] | _ => [] end) raws.
+Definition o_emb (r : OX.response) : response :=
+  mkR (OX.r_hrefs r) (map o_emb_ps (OX.r_propstats r))
+      (match OX.r_status r with Some st => Some (o_code st) | None => None end)
+      (match OX.r_error r with Some raws => Some (o_names raws) | None => None end).
+
+(** status codes are not negative (Status.UnmarshalText only accepts three digits) *)
+Definition o_codes_ok (r : OX.response) : Prop :=
+  (forall st, OX.r_status r = Some st -> (0 <= OX.st_code st)%Z) /\
+  (forall ps, In ps (OX.r_propstats r) -> (0 <= OX.st_code (OX.ps_status ps))%Z).
+
+Lemma success_code c : (0 <= c)%Z -> success (Z.to_N c) = (Z.quot c 100 =? 2)%Z.
+Proof.
+  intros H. unfold success.
+  replace 100%N with (Z.to_N 100) by reflexivity.
+  rewrite <- Z2N.inj_quot by lia.
+  assert (0 <= Z.quot c 100)%Z as Q by (apply Z.quot_pos; lia).
+  destruct (Z.quot c 100 =? 2)%Z eqn:E.
+  - apply Z.eqb_eq in E. rewrite E. reflexivity.
+  - apply Z.eqb_neq in E. apply N.eqb_neq. intros K. apply E.
+    rewrite <- (Z2N.id _ Q), K. reflexivity.
+Qed.
+
+(** C10's result against ClientTotal's *)
+Definition o_rel {A B} (f : A -> B -> Prop) (x : O.cres A) (y : cres B) : Prop :=
+  match x with
+  | O.COk a => exists b, y = COk b /\ f a b
+  | O.CHttp c => exists d, y = CErr (EHttp (Z.to_N c) d)
+  | O.COther => y = CErr EOther
+  end.
+
+Lemma o_resp_err r :
+  o_codes_ok r ->
+  resp_err (o_emb r) =
+  match O.response_err r with Some c => Some (EHttp (Z.to_N c) (r_error (o_emb r))) | None => None end.
+Proof.
+  intros [H _]. unfold resp_err, O.response_err, o_emb at 1. cbn [r_status].
+  destruct (OX.r_status r) as [st|]; [|reflexivity].
+  unfold o_code. rewrite (success_code _ (H st eq_refl)).
+  destruct (Z.quot (OX.st_code st) 100 =? 2)%Z; reflexivity.
+Qed.
+
+Lemma o_find_raw n props :
+  prop_get n (flat_map o_emb_raw props) =
+  match find (OX.has_name n) props with Some raw => Some (o_emb1 raw) | None => None end.
+Proof.
+  unfold prop_get. induction props as [|t props IH]; [reflexivity|].
+  destruct t as [m a ks|s|s]; cbn [flat_map o_emb_raw app find OX.has_name]; try exact IH.
+  change (xname (o_emb1 (OX.Elem m a ks))) with m.
+  change (OX.xname_eqb m n) with (qeq m n).
+  destruct (qeq m n); [reflexivity|exact IH].
+Qed.
+
+Lemma o_find_prop n pss :
+  match find_prop n (map o_emb_ps pss) with
+  | None => O.find_prop n pss = None
+  | Some (ps', raw') =>
+    exists ps raw, In ps pss /\ ps' = o_emb_ps ps /\ raw' = o_emb1 raw /\ OX.has_name n raw = true /\
+      O.find_prop n pss = Some (raw, OX.ps_status ps)
+  end.
+Proof.
+  induction pss as [|ps pss IH]; [reflexivity|].
+  cbn [map find_prop O.find_prop]. unfold o_emb_ps at 1. cbn [ps_props].
+  rewrite o_find_raw.
+  destruct (find (OX.has_name n) (OX.ps_props ps)) as [raw|] eqn:F.
+  - exists ps, raw. apply find_some in F. destruct F as [_ F]. repeat split; auto. now left.
+  - destruct (find_prop n (map o_emb_ps pss)) as [[ps' raw']|]; [|exact IH].
+    destruct IH as (ps0 & raw & I & ? & ? & ? & ?). exists ps0, raw. repeat split; auto. now right.
+Qed.
+
+(** Response.DecodeProp *)
+Lemma o_decode_prop {A} r n (dec : xtree -> option A) :
+  o_codes_ok r ->
+  decode_prop (o_emb r) n dec =
+  match O.decode_prop_raw r n with
+  | O.COk raw => match dec (o_emb1 raw) with Some a => COk a | None => CErr EOther end
+  | O.CHttp c => CErr (EHttp (Z.to_N c) (match O.response_err r with Some _ => r_error (o_emb r) | None => None end))
+  | O.COther => CErr EOther
+  end.
+Proof.
+  intros H. unfold decode_prop, O.decode_prop_raw. rewrite (o_resp_err r H).
+  destruct (O.response_err r) as [c|]; [reflexivity|].
+  change (r_pss (o_emb r)) with (map o_emb_ps (OX.r_propstats r)).
+  pose proof (o_find_prop n (OX.r_propstats r)) as F.
+  destruct (find_prop n (map o_emb_ps (OX.r_propstats r))) as [[ps' raw']|].
+  - destruct F as (ps & raw & I & -> & -> & _ & ->).
+    unfold o_emb_ps. cbn [ps_status]. unfold status_err, o_code.
+    rewrite (success_code _ (proj2 H ps I)).
+    destruct (Z.quot (OX.st_code (OX.ps_status ps)) 100 =? 2)%Z; reflexivity.
+  - rewrite F. reflexivity.
+Qed.
+
+Lemma o_resp_path r :
+  o_codes_ok r ->
+  match O.response_path r with
+  | (p, O.COk _) => resp_path (o_emb r) = (p, None)
+  | (p, O.CHttp c) => exists q d, resp_path (o_emb r) = (q, Some (EHttp (Z.to_N c) d))
+  | (p, O.COther) => exists q, resp_path (o_emb r) = (q, Some EOther)
+  end.
+Proof.
+  intros H. unfold O.response_path, resp_path. rewrite (o_resp_err r H).
+  change (r_hrefs (o_emb r)) with (OX.r_hrefs r).
+  destruct (OX.r_hrefs r) as [|p [|q l]]; destruct (O.response_err r); eauto.
+Qed.
+
+Lemma o_raw_named r n raw : O.decode_prop_raw r n = O.COk raw -> OX.has_name n raw = true.
+Proof.
+  unfold O.decode_prop_raw. destruct (O.response_err r); [discriminate|].
+  destruct (O.find_prop n (OX.r_propstats r)) as [[raw' st]|] eqn:F; [|discriminate].
+  destruct (Z.quot (OX.st_code st) 100 =? 2)%Z; [|discriminate]. intros E. injection E as <-.
+  revert F. induction (OX.r_propstats r) as [|ps l IH]; cbn [O.find_prop]; [discriminate|].
+  destruct (find (OX.has_name n) (OX.ps_props ps)) as [x|] eqn:Fd; [|exact IH].
+  intros E. injection E as <- _. apply find_some in Fd. tauto.
+Qed.
+
+Lemma to_N_404 c : (Z.to_N c =? 404)%N = (c =? 404)%Z.
+Proof.
+  destruct (c =? 404)%Z eqn:E.
+  - apply Z.eqb_eq in E. subst. reflexivity.
+  - apply Z.eqb_neq in E. apply N.eqb_neq. intros K. apply E.
+    destruct c; try discriminate K. simpl in K. lia.
+Qed.
+
+(** `if err != nil && !IsNotFound(err)` around DecodeProp *)
+Lemma o_optional {A B} r n (decO : OX.xtree -> option A) (dec : xtree -> option B) zO z :
+  o_codes_ok r ->
+  (forall t, OX.has_name n t = true -> (decO t = None <-> dec (o_emb1 t) = None)) ->
+  match O.optional (O.decode_prop_raw r n) decO zO with
+  | O.COk _ => exists b, tolerate (decode_prop (o_emb r) n dec) z = COk b
+  | O.CHttp c => exists d, tolerate (decode_prop (o_emb r) n dec) z = CErr (EHttp (Z.to_N c) d)
+  | O.COther => tolerate (decode_prop (o_emb r) n dec) z = CErr EOther
+  end.
+Proof.
+  intros H Hd. rewrite (o_decode_prop r n dec H). unfold O.optional.
+  destruct (O.decode_prop_raw r n) as [raw|c|] eqn:E.
+  - specialize (Hd raw (o_raw_named r n raw E)).
+    destruct (decO raw), (dec (o_emb1 raw)); cbn [tolerate]; eauto.
+    + destruct Hd as [_ Hd]. discriminate (Hd eq_refl).
+    + destruct Hd as [Hd _]. discriminate (Hd eq_refl).
+  - cbn [tolerate is_not_found]. rewrite to_N_404. destruct (c =? 404)%Z; eauto.
+  - reflexivity.
+Qed.
+
+Lemma o_names_distinct :
+  qeq n_getlastmodified o_data_name = false /\ qeq n_getetag o_data_name = false /\
+  qeq n_getcontentlength o_data_name = false.
+Proof. unfold o_data_name. destruct fl; repeat split; reflexivity. Qed.
+
+Lemma o_named n t : OX.has_name n t = true -> exists a ks, t = OX.Elem n a ks.
+Proof.
+  destruct t as [m a ks|s|s]; try discriminate. cbn [OX.has_name].
+  change (OX.xname_eqb m n) with (qeq m n). intros Hn. apply qeq_eq in Hn. subst. eauto.
+Qed.
+
+(** One iteration of decodeCalendarObjectList / decodeAddressList *)
+Theorem o_object_agree r :
+  o_codes_ok r ->
+  o_rel (fun v o => o = Some (O.v_path v)) (O.decode_object cd fl r) (object_item o_guarded o_data_name (o_emb r)).
+Proof.
+  intros H. unfold O.decode_object, object_item.
+  pose proof (o_resp_path r H) as P.
+  destruct (O.response_path r) as [p [u|c|]].
+  2: { destruct P as (q & d & ->). cbn [o_rel]. eauto. }
+  2: { destruct P as (q & ->). reflexivity. }
+  rewrite P. destruct o_names_distinct as (D1 & D2 & D3).
+  rewrite (o_decode_prop r o_data_name _ H).
+  change (O.data_name fl) with o_data_name.
+  destruct (O.decode_prop_raw r o_data_name) as [raw|c|] eqn:E1; cbn [O.required O.bindc cbind o_rel]; eauto.
+  unfold O.dec_string. cbn [O.bindc cbind].
+  destruct (o_named _ _ (o_raw_named r _ raw E1)) as (a0 & ks0 & ->).
+  (* the three optional properties *)
+  assert (forall t, OX.has_name n_getlastmodified t = true ->
+            (O.dec_time cd t = None <-> dec_good (o_emb1 t) = None)) as Q1.
+  { intros t Hn; destruct (o_named _ _ Hn) as (a & ks & ->).
+    unfold dec_good, o_emb1, o_ann, O.dec_time; cbn [xann OX.root_kids]; rewrite D1.
+    change (qeq n_getlastmodified n_getlastmodified) with true; cbv iota.
+    destruct (OX.time_dec cd (OX.chardata ks)); cbn [good_of]; split; congruence. }
+  assert (forall t, OX.has_name n_getetag t = true ->
+            (O.dec_etag cd t = None <-> dec_good (o_emb1 t) = None)) as Q2.
+  { intros t Hn; destruct (o_named _ _ Hn) as (a & ks & ->).
+    unfold dec_good, o_emb1, o_ann, O.dec_etag; cbn [xann OX.root_kids]; rewrite D2.
+    change (qeq n_getetag n_getlastmodified) with false.
+    change (qeq n_getetag n_getetag) with true; cbv iota.
+    destruct (OX.etag_dec cd (OX.chardata ks)); cbn [good_of]; split; congruence. }
+  assert (forall t, OX.has_name n_getcontentlength t = true ->
+            (O.dec_int t = None <-> dec_int (o_emb1 t) = None)) as Q3.
+  { intros t Hn; destruct (o_named _ _ Hn) as (a & ks & ->).
+    unfold dec_int, o_emb1, o_ann, O.dec_int; cbn [xann OX.root_kids]; rewrite D3.
+    change (qeq n_getcontentlength n_getlastmodified) with false.
+    change (qeq n_getcontentlength n_getetag) with false.
+    change (qeq n_getcontentlength n_getcontentlength) with true; cbv iota.
+    destruct (OX.chardata_int (OX.chardata ks)); split; congruence. }
+  pose proof (o_optional r n_getlastmodified (O.dec_time cd) dec_good O.zero_sec tt H Q1) as T1.
+  change Objects.n_getlastmodified with n_getlastmodified.
+  destruct (O.optional (O.decode_prop_raw r n_getlastmodified) (O.dec_time cd) O.zero_sec) as [sec|c|];
+    [destruct T1 as (b1 & ->)|destruct T1 as (d & ->); cbn; eauto|rewrite T1; reflexivity].
+  cbn [O.bindc cbind].
+  pose proof (o_optional r n_getetag (O.dec_etag cd) dec_good ""%string tt H Q2) as T2.
+  change Objects.n_getetag with n_getetag.
+  destruct (O.optional (O.decode_prop_raw r n_getetag) (O.dec_etag cd) "") as [etag|c|];
+    [destruct T2 as (b2 & ->)|destruct T2 as (d & ->); cbn; eauto|rewrite T2; reflexivity].
+  cbn [O.bindc cbind].
+  pose proof (o_optional r n_getcontentlength O.dec_int dec_int 0%Z false H Q3) as T3.
+  change Objects.n_getcontentlength with n_getcontentlength.
+  destruct (O.optional (O.decode_prop_raw r n_getcontentlength) O.dec_int 0%Z) as [len|c|];
+    [destruct T3 as (b3 & ->)|destruct T3 as (d & ->); cbn; eauto|rewrite T3; reflexivity].
+  cbn [O.bindc cbind].
+  (* the payload decoder *)
+  unfold o_emb1, o_ann. cbn [xann OX.root_kids].
+  change (qeq o_data_name o_data_name) with (qeq (O.data_name fl) (O.data_name fl)).
+  rewrite qeq_refl. cbv iota.
+  destruct (OX.pay_dec cd fl (OX.chardata ks0)); cbn [good_of o_rel O.v_path]; eauto.
+Qed.
+
+(** decodeCalendarObjectList / decodeAddressList *)
+Theorem o_list_agree rs tok :
+  (forall r, In r rs -> o_codes_ok r) ->
+  o_rel (fun vs l => l = map O.v_path vs)
+        (O.decode_object_list cd fl {| OX.ms_responses := rs; OX.ms_sync_token := tok |})
+        (collect (object_item o_guarded o_data_name) (map o_emb rs)).
+Proof.
+  unfold O.decode_object_list. cbn [OX.ms_responses].
+  induction rs as [|r rs IH]; intros H; cbn [O.mapC map collect].
+  - exists []. auto.
+  - pose proof (o_object_agree r (H r (or_introl eq_refl))) as F.
+    destruct (O.decode_object cd fl r) as [v|c|]; cbn [O.bindc o_rel] in *.
+    + destruct F as (o & -> & ->). cbn [cbind].
+      specialize (IH (fun x I => H x (or_intror I))).
+      destruct (O.mapC (O.decode_object cd fl) rs) as [vs|c|]; cbn [O.bindc o_rel] in *.
+      * destruct IH as (l & -> & ->). cbn [cbind]. eexists; split; reflexivity.
+      * destruct IH as (d & ->). cbn [cbind]. eauto.
+      * rewrite IH. reflexivity.
+    + destruct F as (d & ->). cbn [cbind]. eauto.
+    + rewrite F. reflexivity.
+Qed.
+
+(** QueryCalendar / MultiGetCalendar / QueryAddressBook / MultiGetAddressBook on a 207 answer
+    whose multi-status ClientTotal decodes to the responses C10 decoded *)
+Definition o_meths : list meth :=
+  match fl with
+  | OX.Cal => [MQueryCalendar; MMultiGetCalendar]
+  | OX.Card => [MQueryAddressBook; MMultiGetAddressBook]
+  end.
+
+Theorem agrees_with_objects_model m path h rs tok :
+  In m o_meths -> h_status h = 207%N -> spec_ms h = Some (map o_emb rs) ->
+  (forall r, In r rs -> o_codes_ok r) ->
+  o_rel (fun vs v => v = VPaths (map O.v_path vs))
+        (O.decode_object_list cd fl {| OX.ms_responses := rs; OX.ms_sync_token := tok |})
+        (run m path (Resp h)).
+Proof.
+  intros M S MS H.
+  assert (run m path (Resp h) = report_objects o_guarded o_data_name (Resp h)) as ->.
+  { unfold o_meths, o_guarded, o_data_name in *. destruct fl; destruct M as [<-|[<-|[]]]; reflexivity. }
+  unfold report_objects. rewrite do_ms_resp, S, MS.
+  change (success 207) with true. change ((207 =? 207)%N) with true. cbv iota. cbn [cbind].
+  pose proof (o_list_agree rs tok H) as F.
+  destruct (O.decode_object_list cd fl {| OX.ms_responses := rs; OX.ms_sync_token := tok |}) as [vs|c|]; cbn [o_rel] in *.
+  - destruct F as (l & -> & ->). cbn [cbind]. eexists; split; reflexivity.
+  - destruct F as (d & ->). cbn [cbind]. eauto.
+  - rewrite F. reflexivity.
+Qed.
+
+End AgreeObjects.
